@@ -95,3 +95,14 @@ Example C14_dynamic_example :
       [[2;0;1;1;-1]; [0;1;1;-1]; [1;1000000000]; [0;2;1;-1]; [0;3;1;1]]
   = [[0;0;-1;1;4]; [0;0;-1;1;0]; []; [0;0;-1;2;0]; [0;0;1;2;0]].
 Proof. vm_compute. reflexivity. Qed.
+
+(* the oracle of harness/rlstress -only D, from the model: capacity 1, one rate of 1 per hour, burst 1, clock frozen.
+   After A's first request, "A again, then B's first" gives (rejected, admitted: A forgotten) and then B rejected, A admitted
+   afresh; "B's first, then A again" gives admitted all along (everybody evicts everybody). The classes (first column) of
+   requests 2-5 are the only two answer patterns a slow, concurrent rate lookup may produce: 429 200 429 200, or 200 x 4. *)
+Example C14_two_orders_at_capacity_one :
+  map (fun o => hd 9 o) (run [1; 5000000000; 1; 3600000000000; 1; 1] [[0;1;1;-1]; [0;1;1;-1]; [0;2;1;1]; [0;2;1;-1]; [0;1;1;2]])
+    = [0; 1; 0; 1; 0] /\
+  map (fun o => hd 9 o) (run [1; 5000000000; 1; 3600000000000; 1; 1] [[0;1;1;-1]; [0;2;1;1]; [0;1;1;2]; [0;2;1;1]; [0;1;1;2]])
+    = [0; 0; 0; 0; 0].
+Proof. split; vm_compute; reflexivity. Qed.
